@@ -4,9 +4,10 @@
 #   change, and the pinned suite (stable_pass of /root/.vp/BASELINE.json) still passes with the change.
 id="$1"; v="$2"; skip="${3:-}"
 wt=/tmp/wt/$id; tgt=/tmp/wt-target/$id; out=/tmp/wt-out/$id/$v
-export CARGO_TARGET_DIR=$tgt CARGO_NET_OFFLINE=true
+export CARGO_TARGET_DIR=$tgt CARGO_NET_OFFLINE=true TMPDIR=/tmp/wt-tmp/$id-$v
+mkdir -p $TMPDIR
 cd $wt || exit 2
-git checkout -q -- . ; git clean -fdq tests/ 2>/dev/null
+git checkout -q -- . ; git checkout -q --detach $(git -C /repo rev-parse HEAD); git clean -fdq tests/ 2>/dev/null
 demos=$(ls $out/*.rs 2>/dev/null)
 [ -n "$demos" ] || { echo "no demo .rs in $out"; exit 2; }
 names=""
@@ -38,4 +39,4 @@ failed=[s for s in stable if s in res and not res[s]]
 print("suite: stable_pass=%d ran=%d failed=%s missing=%d %s"%(len(stable),len(res),failed,len(missing),missing[:3]))
 PY
 fi
-git checkout -q -- . ; git clean -fdq tests/ 2>/dev/null; rm -rf wal_files
+git checkout -q -- . ; git clean -fdq tests/ 2>/dev/null; rm -rf wal_files $TMPDIR
